@@ -489,8 +489,9 @@ def zero_start_with_spanning_gene(ctx: Context, _where: Dict[str, Any]) -> bool:
                 for start, size in ctx.geo.spans(members):
                     if start == 0 and size < ctx.length:
                         return True
-            # the code base also builds the hull of a chain that should wrap (C03-F6)
-            if min(genes[i][0] for i in group) == 0 and not any(ctx.spanning(i) for i in group):
+            # cores are first built from the genes that do not span the origin (an origin-spanning gene
+            # gets a core of its own, a chain that should wrap gets its hull, C03-F9 / C03-F6)
+            if any(genes[i][0] == 0 for i in group if not ctx.spanning(i)):
                 return True
     return False
 
